@@ -16,6 +16,7 @@ import (
 	"os"
 	"sort"
 	"strconv"
+	"strings"
 
 	ds "github.com/sealdice/dicescript"
 	"golang.org/x/exp/rand"
@@ -547,4 +548,52 @@ func c17Parse(src string, flags []bool) (o k1Out) {
 	}
 	sort.Ints(o.Ops)
 	return
+}
+
+// a stream parser that reports only "matched" (no groups, no display text, no payload): the documented fallback gives the
+// handler the matched source text as groups[0] and shows it in the process text — exactly what the equivalent regular
+// expression registration gives
+func init() {
+	cmds["c17-bare"] = func(args []string) {
+		progs := []string{"K12", "1 + K7 * 2", "[K3, K40]", "K5 rest", "K1 + K1", "x = K9; x + K2", "func g() { K6 }; g() + g()", "`a{K4}b`", "K007 - 7", "(K3)"}
+		type obs struct {
+			Ok     bool     `json:"ok"`
+			Err    string   `json:"err"`
+			Str    string   `json:"str"`
+			Detail string   `json:"detail"`
+			Rest   string   `json:"rest"`
+			G0     []string `json:"g0"`
+		}
+		run := func(stream bool, src string) (o obs) {
+			vm := newVM(allOn(), 3, 4, true)
+			h := func(ctx *ds.Context, groups []string, payload any) (*ds.VMValue, string, error) {
+				g0 := "<none>"
+				if len(groups) > 0 {
+					g0 = groups[0]
+				}
+				o.G0 = append(o.G0, g0)
+				n, _ := strconv.ParseInt(strings.TrimPrefix(g0, "K"), 10, 64)
+				return ds.NewIntVal(ds.IntType(2 * n)), "", nil
+			}
+			if stream {
+				_ = vm.RegCustomDiceParser(func(ctx *ds.Context, st *ds.CustomDiceStream) (*ds.CustomDiceParseResult, error) {
+					if ch, ok := st.Read(); !ok || ch != 'K' {
+						return nil, nil
+					}
+					if _, ok := st.ReadDigits(); !ok {
+						return nil, nil
+					}
+					return &ds.CustomDiceParseResult{Matched: true}, nil
+				}, h)
+			} else {
+				_ = vm.RegCustomDice(`K\d+`, h)
+			}
+			r := runScript(vm, src, true)
+			o.Ok, o.Err, o.Str, o.Detail, o.Rest = r.Ok, r.Err, r.Str, r.Detail, r.Rest
+			return
+		}
+		for _, p := range progs {
+			emit(map[string]any{"src": p, "stream": run(true, p), "regex": run(false, p)})
+		}
+	}
 }
